@@ -14,6 +14,7 @@ def search(ctx):
 
 
 def run(ctx):
+    ctx.extract(["scopefacts"])
     ctx.prove(PROPS, extra_modules=EXTRA)
     if ctx.build_harness("c13"):
         ctx.harness("c13", ["run", ctx.seed, ctx.tier], timeout=3000)
@@ -27,6 +28,8 @@ def run(ctx):
         "the parser's expansion of nested import lists is re-implemented in the harness (prefix ++ sub-path) and "
         "checked through the resulting import tables",
         "identifiers are abstract numbers; the lexer/parser decide what is an identifier (C09/C06)",
+        "translator target scopefacts (extract/src/targets/c13.rs): locates the consulted tables / literals by what "
+        "is consulted (method names, receivers, compared variables), not by code shape",
     ]
     return ctx.finish(
         level="proof",
